@@ -125,8 +125,8 @@ def run(tier):
                        '(2) record-length gates of the four protection modes refuse every length that would underflow the decrypt arithmetic or exceed 2^14 plaintext bytes; '
                        '(3) every context access of the T0 code lies inside the member it addresses (abstract interpretation, sa/t0access.py); '
                        '(4) whole library: every variable-length memcpy/memmove/memset/br_ccopy (and in-place ASN.1->raw conversion) into a local array or an '
-                       'array member of a context struct is dead code under "length > room left" (sa/bufcopy.py; 67 of 117 such writes are decidable '
-                       'by the optimiser and armed, the others are listed as undecided in the evidence notes); the engine refuses records larger than its buffer. '
+                       'array member of a context struct, and every store through a variable index into such an array, is dead code under "bytes written > room left" '
+                       '(sa/bufcopy.py; the sites the optimiser can decide are armed (rules/bufcopy_sites.json), the others are listed as undecided in the evidence notes); the engine refuses records larger than its buffer. '
                        'NOT decided: memory safety of the C code of native words and hand-written decoders, termination beyond the acyclic '
                        'T0 call graph, arithmetic UB.',
                        assumptions=['the generated interpreter skeleton (dispatch switch, T0_ENTER, ret) is the T0 compiler\'s standard one; '
